@@ -47,11 +47,16 @@ Definition feasible_row (tol : Q) (N : net) (varspace : bool) (v : vec) : bool :
     feasible_tol tol (n_S N) (zeros (n_S N)) (map Some (n_lb N)) (map Some (n_ub N))
                  (n_extra N) (n_elb N) (n_eub N) v.
 
-(* validate() as the (repaired) code computes it: flux space ignores the user constraints *)
+(* validate() as the (repaired) code computes it.  Flux space: S, metabolite right-hand sides and
+   reaction bounds only (user constraints are ignored).  Variable space: prob.equalities / prob.b
+   = metabolite rows + user constraints classified as equalities + unit rows of fixed non-zero
+   variables; prob.inequalities = the remaining user constraints.                              *)
 Definition model_validate (tol : Q) (N : net) (varspace : bool) (v : vec) : list letter :=
   if varspace then
-    validate_row tol tol (map expand_row (n_S N)) (zeros (n_S N)) (var_lb N) (var_ub N)
-                 (map expand_row (n_extra N)) (n_elb N) (n_eub N) v
+    let '((em, eb), (im, il, iu)) := classify tol (map expand_row (n_extra N)) (n_elb N) (n_eub N) in
+    let '(fm, fb) := fixed_nonzero_rows tol (var_lb N) (var_ub N) in
+    validate_row tol tol (map expand_row (n_S N) ++ em ++ fm) (zeros (n_S N) ++ eb ++ fb)
+                 (var_lb N) (var_ub N) im il iu v
   else
     validate_row tol tol (n_S N) (zeros (n_S N)) (map Some (n_lb N)) (map Some (n_ub N)) [] [] [] v.
 
